@@ -437,7 +437,7 @@ class sumtensor:
         scalar_sum = 0.0
         for part in self.parts:
             result = part.ttv(vector, dims, exclude_dims)
-            if isinstance(result, float):
+            if isinstance(result, (int, float, np.number)):
                 scalar_sum += result
             else:
                 new_parts.append(result)
